@@ -24,7 +24,7 @@ func DerivePublic(priv []byte) (x, y []byte, err error) {
 	}
 
 	var pubBytes []byte
-	pubBytes = pub.Bytes_Unsafe()
+	pubBytes = pub.Bytes()
 	if len(pubBytes) != 65 {
 		return nil, nil, errors.New("private key maps to the point at infinity")
 	}
@@ -70,7 +70,7 @@ func GenerateKey(rand io.Reader) (priv, x, y []byte, err error) {
 	}
 
 	var pubBytes []byte
-	pubBytes = pub.Bytes_Unsafe()
+	pubBytes = pub.Bytes()
 
 	return priv, pubBytes[1:33], pubBytes[33:], nil
 }
